@@ -9,43 +9,97 @@ From Mila Require Import Lib.Bytes Lib.Machine Model.BinArchive Model.BinFormat 
 Import ListNotations.
 Local Open Scope N_scope.
 
-(* whatever order the four hash maps are iterated in, the image is the same *)
-Theorem C02_serialize_order_independent : forall m a a',
+(* THE SORT KEY.  The library orders the label table of a big-endian archive by the names as Rust Strings - the
+   Unicode scalar values of the DECODED names (labels.sort_by(|a, b| a.1.cmp(b.1).then(a.0.cmp(b.0))) on Vec<String>),
+   then by address.  The model holds the Shift-JIS ENCODED names, and byte order is a different order (82 A0 = U+3042
+   sorts before 83 BF = U+03B1 as bytes, after it as a String: C02_example_key_matters).  So serialize_k and canonical
+   take the key function  kf : encoded name -> list of numbers compared  as a parameter (Model/BinFormat.v name_key);
+   the library is the instance kf = "scalars of the decoded name", which ./check C02 passes to the extracted model
+   for every name of every big-endian case (case-line group K, computed by the library's own decoder), without any
+   restriction on the names.  Nothing about the Shift-JIS table is assumed: the theorems below hold for EVERY kf;
+   where the addresses are not known to be distinct they need kf to be injective on the names of the archive
+   ([key_injective_on], Proofs/BinDeterminism.v) - the decoder is injective on lossless names (A-codec). *)
+
+(* whatever order the four hash maps are iterated in, the image is the same - for every key function (the
+   addresses of the label map are distinct, which makes "keys, then address" a total order on its entries) *)
+Theorem C02_serialize_order_independent : forall kf m a a',
   same_content a a' ->
   NoDup (map fst (a_text a)) -> NoDup (map fst (a_labels a)) -> NoDup (map fst (a_cstrs a)) ->
   NoDup (map fst (a_ptrs a) ++ concat (map snd (a_cstrs a))) ->
-  serialize m a = serialize m a'.
+  serialize_k kf m a = serialize_k kf m a'.
 Proof. exact serialize_order_independent. Qed.
 
 (* archives with equal content - answering every lookup alike, however they were built -
    serialize to identical bytes (or fail alike) *)
-Theorem C02_deterministic : forall m a a',
-  maps_are_maps a -> maps_are_maps a' -> same_observations a a' -> serialize m a = serialize m a'.
+Theorem C02_deterministic : forall kf m a a',
+  maps_are_maps a -> maps_are_maps a' -> same_observations a a' -> serialize_k kf m a = serialize_k kf m a'.
 Proof. exact serialize_deterministic. Qed.
 
 (* the sort underlying every table is insensitive to the order of its input *)
 Theorem C02_sort_order_insensitive : forall {V} (l l' : list (N * V)),
   NoDup (map fst l) -> Permutation l l' -> isort key_leb l = isort key_leb l'.
 Proof. intros V. exact (@isort_key_perm_invariant V). Qed.
-Theorem C02_label_order_insensitive : forall e (l l' : list (N * list bytes)),
-  NoDup (map fst l) -> Permutation l l' ->
-  isort (match e with BE => label_leb_be | LE => label_leb_le end) l =
-  isort (match e with BE => label_leb_be | LE => label_leb_le end) l'.
+Theorem C02_label_order_insensitive : forall kf e (l l' : list (N * list bytes)),
+  NoDup (map fst l) -> Permutation l l' -> isort (label_leb kf e) l = isort (label_leb kf e) l'.
 Proof. exact isort_labels_perm_invariant. Qed.
+(* the same for a list of (address, bucket) entries with possibly repeated addresses, when the key function is
+   injective on the names that occur *)
+Theorem C02_label_order_insensitive_injective : forall kf (l l' : list (N * list bytes)),
+  key_injective_on kf (label_names_of l) -> Permutation l l' ->
+  isort (label_leb_be_k kf) l = isort (label_leb_be_k kf) l'.
+Proof. exact isort_labels_be_perm_invariant_inj. Qed.
+(* a little-endian image does not depend on the key function at all *)
+Theorem C02_little_endian_ignores_key : forall kf kf' m a, a_endian a = LE -> serialize_k kf m a = serialize_k kf' m a.
+Proof. exact serialize_k_LE. Qed.
 
 (* serialize produces exactly the canonical image of the content.  [canonical] (Proofs/BinCanonical.v) is
    written from the property text, without hash maps or pool threading: labels by address (LE) or by
-   name then address (BE); text section = de-duplicated list (label names in emission order, then strings
-   in first-use order), offsets by position; pointer table = internal pointers ascending, then string
+   the keys of the names, then address (BE); text section = de-duplicated list (label names in emission order,
+   then strings in first-use order), offsets by position; pointer table = internal pointers ascending, then string
    cells grouped by string in first-use order, each group ascending; header totals computed from the
-   parts.  The sorted association lists ARE the content (C02_sort_order_insensitive). *)
-Theorem C02_serialize_is_canonical : forall m a,
+   parts.  The sorted association lists ARE the content (C02_sort_order_insensitive).
+   Hypothesis on the key function: injective on the label names of the archive (explicit: two different names
+   with equal keys on one repeated address could be listed in either order).  When the label addresses are
+   distinct - every archive the API can build - no property of kf is needed: C02_serialize_is_canonical_maps. *)
+Theorem C02_serialize_is_canonical : forall kf m a,
+  key_injective_on kf (label_names_of (a_labels a)) ->
   a_cstrs a = [] ->
   Forall (fun p => fst p < U32) (a_text a) ->
-  canonical_size (a_endian a) (a_data a) (isort key_leb (a_ptrs a)) (isort key_leb (a_text a)) (isort key_leb (a_labels a)) < U32 ->
-  serialize m a =
-    canonical (a_endian a) (a_data a) (isort key_leb (a_ptrs a)) (isort key_leb (a_text a)) (isort key_leb (a_labels a)).
-Proof. exact serialize_is_canonical. Qed.
+  canonical_size kf (a_endian a) (a_data a) (isort key_leb (a_ptrs a)) (isort key_leb (a_text a)) (isort key_leb (a_labels a)) < U32 ->
+  serialize_k kf m a =
+    canonical kf (a_endian a) (a_data a) (isort key_leb (a_ptrs a)) (isort key_leb (a_text a)) (isort key_leb (a_labels a)).
+Proof. exact serialize_is_canonical_inj. Qed.
+Theorem C02_serialize_is_canonical_maps : forall kf m a,
+  NoDup (map fst (a_labels a)) ->
+  a_cstrs a = [] ->
+  Forall (fun p => fst p < U32) (a_text a) ->
+  canonical_size kf (a_endian a) (a_data a) (isort key_leb (a_ptrs a)) (isort key_leb (a_text a)) (isort key_leb (a_labels a)) < U32 ->
+  serialize_k kf m a =
+    canonical kf (a_endian a) (a_data a) (isort key_leb (a_ptrs a)) (isort key_leb (a_text a)) (isort key_leb (a_labels a)).
+Proof. exact serialize_is_canonical_maps. Qed.
+
+(* the reviewers' witness: big-endian, label "\u{3042}" (82 A0) on address 0 and "\u{3b1}" (83 BF) on address 4.  With the
+   decoded scalars as keys the image is the one the library writes - label table (4, 0), (0, 3), names 83 BF 00 82 A0 00
+   (corpus/C02/cases.txt runs exactly this case against /repo); with the encoded bytes as keys (the model before the
+   key function was introduced) the two entries come out in the other order *)
+Definition ex_key : name_key := fun b =>
+  if bytes_eqb b [130; 160] then [12354] else if bytes_eqb b [131; 191] then [945] else b.
+Definition ex_witness : archive :=
+  {| a_data := zeros 8; a_text := []; a_ptrs := []; a_labels := [(0, [[130; 160]]); (4, [[131; 191]])]; a_cstrs := []; a_endian := BE |}.
+Example C02_example_key_matters :
+  serialize_k ex_key Checked ex_witness =
+    Ok [0;0;0;62; 0;0;0;8; 0;0;0;0; 0;0;0;2; 0;0;0;0;0;0;0;0;0;0;0;0;0;0;0;0;  0;0;0;0;0;0;0;0;
+        0;0;0;4; 0;0;0;0;  0;0;0;0; 0;0;0;3;  131;191;0; 130;160;0]
+  /\ serialize_k key_bytes Checked ex_witness =
+    Ok [0;0;0;62; 0;0;0;8; 0;0;0;0; 0;0;0;2; 0;0;0;0;0;0;0;0;0;0;0;0;0;0;0;0;  0;0;0;0;0;0;0;0;
+        0;0;0;0; 0;0;0;0;  0;0;0;4; 0;0;0;3;  130;160;0; 131;191;0]
+  /\ key_injective_on ex_key (label_names_of (a_labels ex_witness))
+  /\ serialize_k ex_key Checked ex_witness =
+     canonical ex_key BE (zeros 8) [] [] [(0, [[130; 160]]); (4, [[131; 191]])].
+Proof.
+  split; [vm_compute; reflexivity|]. split; [vm_compute; reflexivity|]. split; [|vm_compute; reflexivity].
+  intros n n' H H'. cbn in H, H'. destruct H as [<-|[<-|[]]]; destruct H' as [<-|[<-|[]]]; vm_compute; congruence.
+Qed.
 
 (* non-vacuity: the finding F2 shape - a big-endian archive with the same label on two addresses,
    listed in both orders *)
@@ -54,7 +108,7 @@ Example C02_example :
               a_cstrs := []; a_endian := BE |} in
   let a' := {| a_data := zeros 8; a_text := [(4, [65])]; a_ptrs := [(0, 8)]; a_labels := [(4, [[76]]); (0, [[76]])];
                a_cstrs := []; a_endian := BE |} in
-  maps_are_maps a /\ maps_are_maps a' /\ same_observations a a' /\ exists f, serialize Checked a = Ok f /\ serialize Checked a' = Ok f.
+  maps_are_maps a /\ maps_are_maps a' /\ same_observations a a' /\ exists f, serialize_k key_bytes Checked a = Ok f /\ serialize_k key_bytes Checked a' = Ok f.
 Proof.
   cbn zeta. split; [|split; [|split]].
   - repeat split; cbn; repeat constructor; cbn; intuition discriminate.
@@ -70,25 +124,25 @@ From Mila Require Import Proofs.BinSerializeConforms Proofs.BinReserialize Proof
 (* a file written by serialize (either arithmetic profile m), parsed, serializes (either profile m') to the same bytes.
    [wf_archive]/[fits32]: C01's domain (Properties/C01.v); no pending c-strings: the property speaks of canonical files,
    and an archive with pending c-strings is not what its own image parses to (the pool becomes data, C01). *)
-Theorem C02_reserialize_identity : forall m m' a f a',
+Theorem C02_reserialize_identity : forall kf m m' a f a',
   wf_archive a -> a_cstrs a = [] -> fits32 a ->
-  serialize m a = Ok f -> from_bytes (a_endian a) f = Ok a' -> serialize m' a' = Ok f.
+  serialize_k kf m a = Ok f -> from_bytes (a_endian a) f = Ok a' -> serialize_k kf m' a' = Ok f.
 Proof. exact reserialize_identity. Qed.
 (* ... and so does every archive that answers every lookup like the parsed one (e.g. one rebuilt through the API) *)
-Theorem C02_reserialize_identity_lookups : forall m m' a f a' a'',
+Theorem C02_reserialize_identity_lookups : forall kf m m' a f a' a'',
   wf_archive a -> a_cstrs a = [] -> fits32 a ->
-  serialize m a = Ok f -> from_bytes (a_endian a) f = Ok a' ->
-  maps_are_maps a'' -> same_observations a' a'' -> serialize m' a'' = Ok f.
+  serialize_k kf m a = Ok f -> from_bytes (a_endian a) f = Ok a' ->
+  maps_are_maps a'' -> same_observations a' a'' -> serialize_k kf m' a'' = Ok f.
 Proof. exact reserialize_identity_lookups. Qed.
 (* the wording of the property: ANY canonical file - a byte string f that is the canonical image of a well-formed content
    (given as an archive record without pending c-strings; [canonical] is the independent writer of C02_serialize_is_canonical) -
    parses, and the parsed archive serializes to f again.  Both size hypotheses say the image is below 4 GiB
    ([fits32]: the bound C01 uses; [canonical_size]: the exact size of the canonical image). *)
-Theorem C02_canonical_file_reserializes : forall a f,
+Theorem C02_canonical_file_reserializes : forall kf a f,
   wf_archive a -> a_cstrs a = [] -> fits32 a ->
-  canonical_size (a_endian a) (a_data a) (isort key_leb (a_ptrs a)) (isort key_leb (a_text a)) (isort key_leb (a_labels a)) < U32 ->
-  canonical (a_endian a) (a_data a) (isort key_leb (a_ptrs a)) (isort key_leb (a_text a)) (isort key_leb (a_labels a)) = Ok f ->
-  exists a', from_bytes (a_endian a) f = Ok a' /\ forall m', serialize m' a' = Ok f.
+  canonical_size kf (a_endian a) (a_data a) (isort key_leb (a_ptrs a)) (isort key_leb (a_text a)) (isort key_leb (a_labels a)) < U32 ->
+  canonical kf (a_endian a) (a_data a) (isort key_leb (a_ptrs a)) (isort key_leb (a_text a)) (isort key_leb (a_labels a)) = Ok f ->
+  exists a', from_bytes (a_endian a) f = Ok a' /\ forall m', serialize_k kf m' a' = Ok f.
 Proof. exact canonical_file_reserializes. Qed.
 
 (* literal bytes (review r1, C02-4: both sides of C02_serialize_is_canonical share helpers, so pin them against a file written
@@ -105,6 +159,6 @@ Example C02_example_literal :
   let a := {| a_data := zeros 8; a_text := [(4, [65])]; a_ptrs := [(0, 8)]; a_labels := [(4, [[77]]); (0, [[76]; [77]])];
               a_cstrs := []; a_endian := BE |} in
   serialize Checked a = Ok ex_canonical_file /\
-  canonical BE (zeros 8) [(0, 8)] [(4, [65])] [(0, [[76]; [77]]); (4, [[77]])] = Ok ex_canonical_file /\
+  canonical key_bytes BE (zeros 8) [(0, 8)] [(4, [65])] [(0, [[76]; [77]]); (4, [[77]])] = Ok ex_canonical_file /\
   (a' <- from_bytes BE ex_canonical_file ;; serialize Wrapping a') = Ok ex_canonical_file.
 Proof. vm_compute. repeat split. Qed.
